@@ -212,7 +212,9 @@ def _tail_helper_body(model: Model, fi: FuncInfo, body: List[ast.stmt], caller_n
     h, skip = got
     if h is fi or isinstance(h.node, ast.Lambda) or not h.name.startswith("_") or h.name.startswith("__") or any(ast.unparse(d) != "staticmethod" for d in h.node.decorator_list):
         return None
-    if len(call_sites_of(model, h)) != 1 or len(h.pos_params) - skip != len(call.args):
+    n_sites = len(call_sites_of(model, h))
+    small = sum(1 for x in ast.walk(h.node) if isinstance(x, ast.stmt)) <= 8 and not any(c_ is h for c_, _cl, _sk in call_sites_of(model, h))
+    if (n_sites != 1 and not small) or len(h.pos_params) - skip != len(call.args):
         return None
     a = h.node.args
     if a.vararg or a.kwarg or a.kwonlyargs or a.defaults or a.posonlyargs:
